@@ -4,6 +4,7 @@
   (hence ℚ and ℝ); IEEE doubles enter only through the correspondence check.
 -/
 import SkyllhModel.Model.Livetime
+import SkyllhModel.Proofs.Livetime
 import Mathlib.Order.Basic
 import Mathlib.Algebra.Order.Field.Basic
 import Mathlib.Tactic
@@ -169,6 +170,74 @@ theorem c14_integrity_iff (edges : List F) :
       simp only [integrity, Bool.and_eq_true, decide_eq_true_eq, List.isChain_cons_cons]
       rw [ih]
 
+section field
+variable {K : Type} [Field K] [LinearOrder K] [IsStrictOrderedRing K]
+
+/-- **cumulative live time** (the index computation of `get_livetime_upto`, as coded): for
+sorted non-overlapping intervals it never fails and equals the total on-time before `t`,
+`Σ (min stop t − min start t)`, for every `t` (before, inside, between, after, on edges). -/
+theorem c14_upto_eq_measure (ivs : List (K × K)) (t : K) (hs : C14.Sorted ivs) :
+    upto ivs t = some (C14.uptoSpec ivs t) := by
+  rw [C14.upto_eq_uptoFrom, C14.uptoFrom_eq ivs t hs 0, zero_add]
+
+/-- the measure form really is "on-time before t": each summand is the length of
+`[start, stop) ∩ (-∞, t)`. -/
+theorem c14_upto_summand (a b t : K) (hab : a ≤ b) :
+    min b t - min a t = (if t ≤ a then 0 else if t < b then t - a else b - a) := by
+  split_ifs with h1 h2
+  · rw [min_eq_right h1, min_eq_right (le_trans h1 hab)]; ring
+  · rw [min_eq_right (le_of_lt h2), min_eq_left (le_of_lt (not_le.mp h1))]
+  · rw [min_eq_left (not_lt.mp h2), min_eq_left (le_of_lt (not_le.mp h1))]
+
+/-- past the last interval the cumulative live time is the integrated live time -/
+theorem c14_livetime_total (ivs : List (K × K)) (t : K) (hs : C14.Sorted ivs)
+    (hlast : ∀ e ∈ flat ivs, e ≤ t) :
+    upto ivs t = some (livetimeSeq ivs) ∧ livetimeSeq ivs = C14.total ivs := by
+  have h2 : livetimeSeq ivs = C14.total ivs := by
+    unfold livetimeSeq; rw [C14.cumOntime_eq, C14.cumFrom_getLast]; ring
+  refine ⟨?_, h2⟩
+  rw [c14_upto_eq_measure ivs t hs, h2]
+  congr 1
+  unfold C14.uptoSpec C14.total
+  congr 1
+  apply List.map_congr_left
+  intro p hp
+  have h1 : p.1 ≤ t := hlast p.1 (by unfold flat; simp only [List.mem_flatMap]; exact ⟨p, hp, by simp⟩)
+  have h2 : p.2 ≤ t := hlast p.2 (by unfold flat; simp only [List.mem_flatMap]; exact ⟨p, hp, by simp⟩)
+  rw [min_eq_left h1, min_eq_left h2]
+
+/-- **random on-times** (`draw_ontimes`, inverse CDF over the cumulative on-time, as coded):
+for every uniform deviate `u ∈ [0,1)` and interval set of positive live time the drawn time is
+defined and lies in on-time (zero-length intervals are never hit). -/
+theorem c14_draw_in_ontime (ivs : List (K × K)) (u : K) (hs : C14.Sorted ivs)
+    (hw : ∀ p ∈ ivs, p.1 ≤ p.2) (hL : 0 < C14.total ivs) (hu0 : 0 ≤ u) (hu1 : u < 1) :
+    ∃ x, drawOn ivs u = some x ∧ isOn ivs x = true := by
+  rw [C14.drawOn_eq_drawFrom, C14.cumFrom_getLast, zero_add]
+  have h1 : (0 : K) ≤ u * C14.total ivs := mul_nonneg hu0 (le_of_lt hL)
+  have h2 : u * C14.total ivs < 0 + C14.total ivs := by
+    rw [zero_add]; exact mul_lt_of_lt_one_left hL hu1
+  obtain ⟨x, hx, p, hp, hp1, hp2⟩ := C14.drawFrom_mem ivs hw 0 _ h1 h2
+  exact ⟨x, hx, (c14_is_on_iff ivs x hs).mpr ⟨p, hp, hp1, hp2⟩⟩
+
+/-- **random on-times inside a window**: drawing on the window-restricted interval list (what
+`draw_ontimes(t_min, t_max)` does) yields a time that is on-time of the *original* intervals and
+inside the window. -/
+theorem c14_draw_in_window (ivs : List (K × K)) (t0 t1 u : K)
+    (hw : ∀ p ∈ ivs, p.1 ≤ p.2) (h01 : t0 ≤ t1)
+    (hL : 0 < C14.total (betweenSpec ivs t0 t1)) (hu0 : 0 ≤ u) (hu1 : u < 1) :
+    ∃ x, drawOn (betweenSpec ivs t0 t1) u = some x ∧ C14.InOn ivs x ∧ t0 ≤ x ∧ x < t1 := by
+  rw [C14.drawOn_eq_drawFrom, C14.cumFrom_getLast, zero_add]
+  have hw' : ∀ q ∈ betweenSpec ivs t0 t1, q.1 ≤ q.2 :=
+    fun q hq => (c14_between_within ivs t0 t1 h01 hw q hq).2.1
+  have h1 : (0 : K) ≤ u * C14.total (betweenSpec ivs t0 t1) := mul_nonneg hu0 (le_of_lt hL)
+  have h2 : u * C14.total (betweenSpec ivs t0 t1) < 0 + C14.total (betweenSpec ivs t0 t1) := by
+    rw [zero_add]; exact mul_lt_of_lt_one_left hL hu1
+  obtain ⟨x, hx, q, hq, hq1, hq2⟩ := C14.drawFrom_mem _ hw' 0 _ h1 h2
+  have := (c14_between_eq_inter ivs t0 t1 x).mp ⟨q, hq, hq1, hq2⟩
+  exact ⟨x, hx, this.1, this.2.1, this.2.2⟩
+
+end field
+
 -- non-vacuity: a concrete sorted interval set with a touching pair and a zero-length interval
 example : C14.Sorted ([(0, 2), (2, 4), (6, 6), (8, 12)] : List (ℤ × ℤ)) := by
   unfold C14.Sorted flat; decide
@@ -177,3 +246,7 @@ example : isOn ([(0, 2), (2, 4), (6, 6), (8, 12)] : List (ℤ × ℤ)) 6 = false
 example : betweenSpec ([(0, 2), (2, 4), (6, 6), (8, 12)] : List (ℤ × ℤ)) 5 7 = [(6, 6)] := by decide
 example : betweenIdx ([(0, 2), (2, 4), (8, 12)] : List (ℤ × ℤ)) 5 7 = some [] := by decide
 example : betweenIdx ([(0, 2), (2, 4), (8, 12)] : List (ℤ × ℤ)) 1 9 = some [(1, 2), (2, 4), (8, 9)] := by decide
+example : C14.Sorted ([(0, 2), (2, 4), (6, 6), (8, 12)] : List (ℚ × ℚ)) := by
+  unfold C14.Sorted flat; simp; norm_num
+example : (0 : ℚ) < C14.total ([(0, 2), (2, 4), (6, 6), (8, 12)] : List (ℚ × ℚ)) := by
+  simp [C14.total]; norm_num
